@@ -33,8 +33,8 @@ def find_parent_for_loop(op: Operation) -> scf.ForOp | None:
 
 
 def get_cast_source(value: SSAValue) -> SSAValue:
-    """Look through memref.cast ops: the value that is cast."""
-    while isinstance(value.owner, memref.CastOp):
+    """Look through memref.cast and memref.memory_space_cast ops: the value that is cast."""
+    while isinstance(value.owner, memref.CastOp | memref.MemorySpaceCastOp):
         value = value.owner.source
     return value
 
